@@ -23,7 +23,11 @@
     GUARDED by the flag: hypotheses about a state `s` are assumed under `s.nmpOut = false`,
     conclusions about the state returned hold under its `nmpOut = false` (`TTA`, `QRange`,
     `ABRange`).  The flag is monotone, so `nmpOut = false` at the end of a run means that the event
-    never happened in it;
+    never happened in it.  A second ghost flag, `St.ttOut`, records the CONSEQUENCE that matters: a
+    value that is not `RelP ply` was handed to a table store at `ply` (`ttBad`).  The `nmpOut`-guarded
+    development proves in passing that `ttOut` is not raised while `nmpOut` is down (`TTA`, `go_free_ttOut`);
+    the `ttOut`-guarded copy (Proofs/SearchScoreQ2.lean …) needs `InR` of values only and carries the exact
+    run-level hypothesis "no out-of-band store";
   * `rfp_sound`, `nmp_sound`: reverse futility / null move are only tried with `staticEval ≥ beta`
     (for `rfpCut` this needs `beta + d*RFPScoreFactor` not to wrap: `beta ≤ rfpSafe`, the bound for
     `RFPDepthLimit ≤ 10`, `RFPScoreFactor ≤ 130` of params/spsa.go);
@@ -105,12 +109,18 @@ structure ScoreLaws (c : Comp σ π) (Good : Board → Prop) (TTok : σ → Prop
 
 /-- the table predicate as far as it can be known: the persistent state satisfies the invariant of
     the component laws (unconditionally: `Laws.ok_store`), and — unless the ghost flag has been
-    raised — the table predicate. -/
-def TTA (TTok : σ → Prop) (s : St σ) : Prop := PsInv.ok s.ps ∧ (s.nmpOut = false → TTok s.ps)
+    raised — the table predicate; and, relative to a Boolean `t0` ("the second ghost flag `ttOut` was
+    up when the run started"; `t0 = true` makes the clause void), that `ttOut` is still down: while
+    `nmpOut` is down every value handed to a table store is ply-consistent, so `ttOut` is not raised
+    (`go_free_ttOut`: `nmpOut = false` implies `ttOut = false` — the hypothesis of the `…_real`
+    theorems is implied by the one of the `…_real_nmp` theorems). -/
+def TTA (TTok : σ → Prop) (t0 : Bool) (s : St σ) : Prop :=
+  PsInv.ok s.ps ∧ (s.nmpOut = false → TTok s.ps ∧ (t0 = false → s.ttOut = false))
 
-theorem TTA.congr {TTok : σ → Prop} {s s' : St σ} (hps : s'.ps = s.ps) (ha : s'.nmpOut = s.nmpOut)
-    (h : TTA TTok s) : TTA TTok s' :=
-  ⟨by rw [hps]; exact h.1, fun h' => by rw [hps]; exact h.2 (by rw [← ha]; exact h')⟩
+theorem TTA.congr {TTok : σ → Prop} {t0 : Bool} {s s' : St σ} (hps : s'.ps = s.ps) (ha : s'.nmpOut = s.nmpOut)
+    (h : TTA TTok t0 s) (ht : s'.ttOut = s.ttOut := by rfl) : TTA TTok t0 s' :=
+  ⟨by rw [hps]; exact h.1, fun h' => by
+    rw [hps, ht]; exact h.2 (by rw [← ha]; exact h')⟩
 
 /-- the flag is monotone: a state reached from `s` with the flag down has `s.nmpOut = false`. -/
 theorem Mono.a_back {L : Limits} {s s' : St σ} (h : Mono L s s') (h' : s'.nmpOut = false) : s.nmpOut = false := by
@@ -278,6 +288,85 @@ omit [PsInv σ] in
 @[simp] theorem setPv_aborted (s : St σ) (pv : Pv.Rows) : (s.setPv pv).aborted = s.aborted := rfl
 omit [PsInv σ] in
 @[simp] theorem flag_aborted' (s : St σ) (a : Bool) : (s.flag a).aborted = s.aborted := rfl
+
+/-! ### the flag `ttOut` -/
+
+omit [PsInv σ] in
+@[simp] theorem setBoard_ttOut (s : St σ) (b : Board) : (s.setBoard b).ttOut = s.ttOut := rfl
+omit [PsInv σ] in
+@[simp] theorem pop_ttOut (s : St σ) : s.pop.ttOut = s.ttOut := rfl
+omit [PsInv σ] in
+@[simp] theorem push_ttOut (s : St σ) (sm : StackMove) : (s.push sm).ttOut = s.ttOut := rfl
+omit [PsInv σ] in
+@[simp] theorem pushFrame_ttOut (s : St σ) : s.pushFrame.ttOut = s.ttOut := rfl
+omit [PsInv σ] in
+@[simp] theorem popFrame_ttOut (s : St σ) : s.popFrame.ttOut = s.ttOut := rfl
+omit [PsInv σ] in
+@[simp] theorem setPs_ttOut (s : St σ) (ps : σ) : (s.setPs ps).ttOut = s.ttOut := rfl
+omit [PsInv σ] in
+@[simp] theorem setPv_ttOut (s : St σ) (pv : Pv.Rows) : (s.setPv pv).ttOut = s.ttOut := rfl
+omit [PsInv σ] in
+@[simp] theorem flag_ttOut (s : St σ) (a : Bool) : (s.flag a).ttOut = s.ttOut := rfl
+omit [PsInv σ] in
+@[simp] theorem flagNmp_ttOut (s : St σ) (a : Bool) : (s.flagNmp a).ttOut = s.ttOut := rfl
+
+omit [PsInv σ] in
+theorem abort_ttOut (L : Limits) (s : St σ) : (abort L s).2.ttOut = s.ttOut := by
+  unfold abort
+  split
+  · rfl
+  · split
+    · rfl
+    · split <;> rfl
+
+omit [PsInv σ] in
+theorem incrementNodes_ttOut (L : Limits) (s : St σ) : (incrementNodes L s).ttOut = s.ttOut := by
+  unfold incrementNodes
+  split
+  · rfl
+  · split <;> rfl
+
+omit [PsInv σ] in
+/-- the flag is down after a store site: it was down before, and the stored value was not out of band. -/
+theorem flagTT_false {s : St σ} {a : Bool} (h : (s.flagTT a).ttOut = false) : s.ttOut = false ∧ a = false := by
+  have : (s.ttOut || a) = false := h
+  simpa using this
+
+/-- `ttBad` is the negation of `RelP`. -/
+theorem relP_of_not_bad {ply : Int} {v : Score} (h : ttBad ply v = false) : RelP ply v := by
+  unfold ttBad at h
+  simp only [Bool.or_eq_false_iff, decide_eq_false_iff_not] at h
+  obtain ⟨h1, h2⟩ := h
+  have h1' : v ≤ max 9936 (10000 - ply) := Int.not_lt.1 h1
+  have h2' : -(max 9936 (10000 - ply)) ≤ v := Int.not_lt.1 h2
+  exact ⟨h2', h1'⟩
+
+theorem bad_of_not_relP {ply : Int} {v : Score} (h : ¬ RelP ply v) : ttBad ply v = true := by
+  cases hb : ttBad ply v
+  · exact absurd (relP_of_not_bad hb) h
+  · rfl
+
+/-- the flag is monotone: a state reached from `s` with the flag down has `s.ttOut = false`. -/
+theorem Mono.t_back {L : Limits} {s s' : St σ} (h : Mono L s s') (h' : s'.ttOut = false) : s.ttOut = false := by
+  cases hs : s.ttOut
+  · rfl
+  · rw [h.tt_mono hs] at h'; cases h'
+
+omit [PsInv σ] in
+/-- a store of a ply-consistent value does not raise the flag. -/
+theorem flagTT_keep {s : St σ} {a : Bool} (h : s.ttOut = false) (ha : a = false) : (s.flagTT a).ttOut = false := by
+  show (s.ttOut || a) = false
+  rw [h, ha]; rfl
+
+theorem not_bad_of_relP {ply : Int} {v : Score} (h : RelP ply v) : ttBad ply v = false := by
+  cases hb : ttBad ply v
+  · rfl
+  · exfalso
+    unfold ttBad at hb
+    simp only [Bool.or_eq_true, decide_eq_true_eq] at hb
+    unfold RelP hiP at h
+    simp only [Score] at *
+    omega
 
 end Search
 end ChessVerif
